@@ -52,3 +52,73 @@ def check(chk, dirs, rule='sibling-call-sequence', floor=5):
                 chk.violation(rule, inst, f, 'call #%d differs: %s has %s, %s has %s (%d vs %d calls): a step was dropped, added or moved in one of the two word-size variants'
                               % (k, fn, sa[k] if k < len(sa) else 'nothing', gn, sb[k] if k < len(sb) else 'nothing', len(sa), len(sb)), key='%s %s' % (rule, fn))
     chk.floor('i15/i31 sibling pairs compared', n, floor)
+
+
+# ---------------------------------------------------------------- further variant families (reference: pairs that agree on the reviewed tree)
+GROUPS = {
+    'm15/m31': ('m15', 'm31', ('src/ec/',)),
+    'm62/m64': ('m62', 'm64', ('src/ec/',)),
+    'aes_big/aes_small': ('aes_big', 'aes_small', ('src/symcipher/',)),
+    'i31/i32': ('i31', 'i32', ('src/int/', 'src/rsa/')),
+}
+
+
+def _pairs(group):
+    a, b, dirs = GROUPS[group]
+    P = wmw.program()
+    byfile = collections.defaultdict(dict)
+    for (un, fn), F in P.static.items():
+        byfile[F.file().replace(build.REPO + '/', '')][fn] = F
+
+    def norm(n):
+        n = re.sub(r'^llvm\.(mem\w+)\..*', r'\1', n)
+        return n.replace(a, 'XX').replace(b, 'XX')
+
+    def seq(F):
+        return [norm(c['callee']) for c in sorted(F.calls(), key=lambda c: c['id'])
+                if c.get('callee') and not c['callee'].startswith(('llvm.dbg', 'llvm.lifetime', 'br_verif'))]
+    out = {}
+    for f, fs in sorted(byfile.items()):
+        if a not in f or not any(f.startswith(d) for d in dirs):
+            continue
+        g = f.replace(a, b)
+        if g == f or g not in byfile:
+            continue
+        for fn, A in sorted(fs.items()):
+            gn = fn.replace(a, b)
+            if gn in byfile[g]:
+                out['%s:%s' % (f, fn)] = (seq(A), seq(byfile[g][gn]), gn)
+    return out
+
+
+def check_group(chk, group, rule='sibling-call-sequence', floor=5):
+    """variant files of one algorithm (15/31-bit limbs, 62/64-bit, table sizes, word sizes): the functions that made the same calls in
+    the same order on the reviewed tree (rules/sibling_pairs.json) must still do so: a step dropped, added or moved in one variant only
+    is a divergence between implementations that must compute the same function"""
+    import json, os
+    ref = json.load(open(os.path.join(build.VERIF, 'rules', 'sibling_pairs.json')))[group]
+    cur = _pairs(group)
+    n = 0
+    for key in ref:
+        if key not in cur:
+            continue            # function renamed / removed: nothing to compare
+        sa, sb, gn = cur[key]
+        n += 1
+        fn = key.split(':')[1]
+        inst = '%s / %s (%s) make the same calls in the same order' % (fn, gn, group)
+        if sa == sb:
+            chk.ok(rule, inst, key.split(':')[0], '%d calls' % len(sa))
+        else:
+            k = next((j for j in range(min(len(sa), len(sb))) if sa[j] != sb[j]), min(len(sa), len(sb)))
+            chk.violation(rule, inst, key.split(':')[0], 'call #%d differs: %s has %s, %s has %s (%d vs %d calls): a step was dropped, added or moved in one variant only'
+                          % (k, fn, sa[k] if k < len(sa) else 'nothing', gn, sb[k] if k < len(sb) else 'nothing', len(sa), len(sb)), key='%s %s %s' % (rule, group, fn))
+    chk.floor('%s sibling pairs compared' % group, n, floor)
+
+
+if __name__ == '__main__':
+    import json, os
+    out = {}
+    for g in GROUPS:
+        out[g] = sorted(k for k, (sa, sb, gn) in _pairs(g).items() if sa == sb and len(sa) > 0)
+        print(g, len(out[g]))
+    json.dump(out, open(os.path.join(build.VERIF, 'rules', 'sibling_pairs.json'), 'w'), indent=1)
